@@ -68,8 +68,9 @@ def gen_graph(rng):
         rng.shuffle(ps)
         parents[nm] = ps
         # (a declaration may be wrapped over several lines or aligned with tabs)
-        sep = rng.choice([",", ", ", " ,", ",\n      ", "\t,", ", \t"])
-        lead = rng.choice(["", "", " ", "\t", "\n   "])
+        # (... or typed with blanks of other kinds: the wide blank a CJK keyboard puts behind a comma, a no-break space)
+        sep = rng.choice([",", ", ", " ,", ",\n      ", "\t,", ", \t", ",\u3000", "\xa0, ", ",\x0c"])
+        lead = rng.choice(["", "", " ", "\t", "\n   ", "\xa0", "\u2003"])
         decl = ("!" if nm in internal else "") + nm + ((":" + lead + sep.join(ps)) if ps else "")
         help_ = "help " + nm if rng.random() < 0.7 else ("help " + nm, "description of " + nm)
         cmds.append((decl, help_))
@@ -304,6 +305,8 @@ def judge(ctx, g, case):
         for first in ["help", "h", "--", "-", "", "x", "e", g['names'][0] + "x",
                       # (a value that is the name of a command in other letters is a value)
                       g['real'][0].upper(), g['real'][-1].capitalize(), g['real'][0].swapcase(),
+                      # (a command name with a line end behind it - a line of a file used as an argument - is a value)
+                      g['real'][0] + "\n", g['real'][-1] + "\r\n",
                       # (a standard option in front of a value that reads like a command: still no command name first)
                       "--no-color"] + std_first:
             if first in g['names']:
